@@ -120,7 +120,8 @@ CHECKS = {
    "metamorphic fragmentation-invariance: generated valid streams x exhaustive/structural/random cut sets x min-chunk settings",
    "Valid streams with PUBLISH payloads around chunk and varint boundaries are decoded under whole, byte-at-a-time, structural +-1 and random fragmentations and "
    "all 2^(n-1) cut sets of short streams; every run must announce each PUBLISH once, hand out exactly the bytes sent with exactly one final piece, respect min_chunk_size and "
-   "decode the following packet unchanged.",
+   "decode the following packet unchanged. Connection level (four roles): streams of 1..3 publishes under whole / byte-at-a-time / frame-boundary / random fragmentation x min_chunk_size x payload buffer 8/64/32K x reader pace "
+   "(eager, lazy, read_all eager/lazy, abandon, partial) with handlers finishing at once or held: every reading handler gets exactly the bytes sent, abandoned payloads leak nothing into the next packet, everything is acknowledged.",
    "Trusted: reference encoder producing the streams; the judge in harness/src/decoding.rs.",
    "DESIGN.md section 3 C10"),
  "C18": ("exploration",
